@@ -6,6 +6,10 @@ ids = [p['id'] for p in props]
 
 # id -> (level, technique, text, note)
 CLAIMED = {
+ "C04": ("exploration", "in-process twin execution: every query run with all parallelism decisions forced off and twice forced on (hook switches), on rayon pools of 1-16 workers; results compared as sequences/multisets, parallel operators read from probes",
+         "14+ query shapes that reach the parallel scan/filter/sort/aggregate/join operators over tables of up to 3600 rows; sequential vs parallel results and two parallel repetitions must agree.",
+         "Configurations are selected through vibesql_verif switches rather than the once-per-process PARALLEL_THRESHOLD variable; only scheduler interleavings that occurred are covered."),
+
  "C16": ("exploration", "twin execution (in-memory indexes vs memory_budget=0 SpillToDisk) with statement-outcome, probe-result and structural (index entry set via verif_dump) comparison",
          "The same DML history runs on both databases; every outcome, 17 index-served probes and the complete (key -> row ids) content of every index are compared; the backend of each index is read back and counted.",
          "The disk-backed branch is reached through the memory budget, not the 100k-row threshold."),
